@@ -8,6 +8,7 @@ CONSTANTS
   MaxDup = 1
   MaxDrop = 1
   MaxClose = 0
+  Faults = {"DropQ", "DupQ", "ReplayQ", "DropR", "DupR"}
   StaleMode = "fail"
   KeyCheck = TRUE
   Timeout = FALSE
